@@ -60,7 +60,7 @@ func (r *ruleImpl) Execute(ctx heimdall.Context) (rule.Backend, error) {
 		// unescape path
 		request.URL.RawPath = ""
 	case config.EncodedSlashesOff:
-		if strings.Contains(request.URL.RawPath, "%2F") {
+		if containsEncodedSlash(request.URL.RawPath) {
 			return nil, errorchain.NewWithMessage(heimdall.ErrArgument,
 				"path contains encoded slash, which is not allowed")
 		}
@@ -153,6 +153,18 @@ type backend struct {
 
 func (b *backend) URL() *url.URL { return b.targetURL }
 
+// according to RFC 3986, Section 2.1 the hexadecimal digits of a percent-encoding are case-insensitive
+//
+//nolint:gochecknoglobals
+var (
+	encodedSlashProtector = strings.NewReplacer("%2F", "$$$escaped-slash-u$$$", "%2f", "$$$escaped-slash-l$$$")
+	encodedSlashRestorer  = strings.NewReplacer("$$$escaped-slash-u$$$", "%2F", "$$$escaped-slash-l$$$", "%2f")
+)
+
+func containsEncodedSlash(value string) bool {
+	return strings.Contains(value, "%2F") || strings.Contains(value, "%2f")
+}
+
 func unescape(value string, handling config.EncodedSlashesHandling) string {
 	if handling == config.EncodedSlashesOn {
 		unescaped, _ := url.PathUnescape(value)
@@ -160,7 +172,7 @@ func unescape(value string, handling config.EncodedSlashesHandling) string {
 		return unescaped
 	}
 
-	unescaped, _ := url.PathUnescape(strings.ReplaceAll(value, "%2F", "$$$escaped-slash$$$"))
+	unescaped, _ := url.PathUnescape(encodedSlashProtector.Replace(value))
 
-	return strings.ReplaceAll(unescaped, "$$$escaped-slash$$$", "%2F")
+	return encodedSlashRestorer.Replace(unescaped)
 }
